@@ -148,6 +148,11 @@ func c06Gen(c *Ctx) {
 		case 2:
 			units = trieBoundary
 			fam = "random-boundary-runes"
+		case 3:
+			if r.Intn(2) == 0 {
+				units = trieOverlong
+				fam = "random-rejected-lead-bytes"
+			}
 		}
 		ps := randPatternSet(r, units, 8, 5)
 		tc := trieCase{ops: opsOf(ps), text: []byte(randText(r, units, ps, c.N(12, 30)))}
